@@ -204,3 +204,19 @@ class SetExpr:
 
     def equals(self, o, assuming=None):
         return self.subset_of(o, assuming) and o.subset_of(self, assuming)
+
+
+def path_atoms(cfg, path):
+    """Atoms established by the branch edges taken along a concrete CFG path."""
+    out = set()
+    for a, b in zip(path, path[1:]):
+        if cfg.kind(a) != "test":
+            continue
+        labs = cfg.g[a][b]["label"].split("|")
+        if "true" in labs and "false" in labs:
+            continue
+        if "true" in labs:
+            out |= atoms(cfg.ast(a), True)
+        elif "false" in labs:
+            out |= atoms(cfg.ast(a), False)
+    return out
